@@ -994,7 +994,7 @@ func centers(tokens []Token) pr.Centers {
 func objectPosition(tokens []Token, _ string) pr.CssProperty {
 	out := centers(tokens)
 
-	if len(out) == 0 {
+	if len(out) != 1 { // a single position, not a comma separated list
 		return nil
 	}
 	return out[0]
